@@ -2,7 +2,7 @@
 # Regenerates harness/go.mod and go.sum from /repo's current go.mod (run before every harness build).
 set -e
 REPO=${VERIF_REPO:-/repo}
-H=$(dirname "$0")/../harness
+H=${VERIF_HARNESS_DIR:-$(dirname "$0")/../harness}
 sed -e '1s#^module .*#module verifharness#' "$REPO/go.mod" > "$H/go.mod.tmp"
 printf '\nreplace github.com/cosmos/interchain-security/v7 => %s\n' "$REPO" >> "$H/go.mod.tmp"
 if ! cmp -s "$H/go.mod.tmp" "$H/go.mod" 2>/dev/null; then mv "$H/go.mod.tmp" "$H/go.mod"; else rm "$H/go.mod.tmp"; fi
